@@ -996,14 +996,32 @@ def quick_pair_alphabet(seed, size=32):
     return sorted((names + names)[off:off + size])
 
 
+PAIR_CORE_KINDS = ("dense", "generic", "identity", "diag", "tridiag", "perm", "tri", "kernel", "scalar", "sum", "prod", "kron", "kronsum",
+                   "bd", "tr", "adj", "sl", "cat", "psd", "kronsum_if", "kron_il", "prod_if", "sum_if", "sliced_full", "flip", "alias",
+                   "sl_rev", "usercls", "dense_c16", "dense_f4", "diag_mask", "tridiag_mixed")
+
+
+def pair_alphabet():
+    """Thorough tier, length 2: the full alphabet except that the six per-kind product letters (mv_/mmf_/rmv_/rmm_/mm3_/rmm3_<kind>,
+    6 x 76 letters) are taken for a core set of kinds only -- the pair level grows with the square of the alphabet."""
+    bulk = ("mv_", "mmf_", "rmv_", "rmm_", "mm3_", "rmm3_", "products_after_abort_")
+    out = []
+    for L in sorted(ALPHABET):
+        pre = [b for b in bulk if L.startswith(b)]
+        if pre and L[len(pre[0]):] in KINDS and L[len(pre[0]):] not in PAIR_CORE_KINDS:
+            continue
+        out.append(L)
+    return out
+
+
 def sweep_histories(maxlen, full_pairs=True, seed=0):
-    """length 1: full alphabet; length 2: full alphabet (thorough) or reduced alphabet (quick);
+    """length 1: full alphabet; length 2: pair alphabet (thorough) or reduced alphabet (quick);
     length 3: reduced alphabet."""
     names = sorted(ALPHABET)
     for L in names:
         yield (L, )
     if maxlen >= 2:
-        two = names if full_pairs else quick_pair_alphabet(seed, size=30)
+        two = pair_alphabet() if full_pairs else quick_pair_alphabet(seed, size=30)
         for a, b in itertools.product(two, two):
             yield (a, b)
     if maxlen >= 3:
@@ -1054,7 +1072,7 @@ def phase_sweep(run, pool, maxlen):
         "alphabet_size": len(ALPHABET), "reduced_alphabet_size": len(ALPHABET3), "max_length": maxlen, "histories": n[0],
         "exhaustive": True,
         "exhaustive_over": ("all 1-letter histories of the full alphabet, all 2-letter histories of the %s alphabet%s"
-                            % ("full" if maxlen >= 3 else "seed-rotated 30-letter sub-", ", all 3-letter histories of the reduced alphabet"
+                            % ("%d-letter pair" % len(pair_alphabet()) if maxlen >= 3 else "seed-rotated 30-letter sub-", ", all 3-letter histories of the reduced alphabet"
                                if maxlen >= 3 else "")), "distinct_calls_compared_across_histories": len(table),
         "large_programs": len(large_programs_c18()), "function_x_kind_matrix_programs": len(matrix_programs_c18()),
         "history_independence_conflicts": len(conflicts),
